@@ -156,7 +156,7 @@ type ipVec struct {
 type ipSetup struct {
 	rtc   [3]clientip.RightmostTrustedCount
 	rnp   [2]clientip.RightmostNonPrivate
-	rtr   [2]clientip.RightmostTrustedRange
+	rtr   [3]clientip.RightmostTrustedRange
 	lnp   [2][3]clientip.LeftmostNonPrivate
 	chain clientip.Chain
 }
@@ -184,6 +184,12 @@ func newIPSetup(key clientip.HeaderKey) *ipSetup {
 		s.lnp[0][lim-1] = mustRes(clientip.NewLeftmostNonPrivate(key, uint(lim)))
 		s.lnp[1][lim-1] = mustRes(clientip.NewLeftmostNonPrivate(key, uint(lim), clientip.ExcludePrivateNet(true)))
 	}
+	// a provider that returns no range at all (nil for one header, an empty slice for the other): nothing is trusted
+	none := []net.IPNet(nil)
+	if key == clientip.XForwardedForKey {
+		none = []net.IPNet{}
+	}
+	s.rtr[2] = mustRes(clientip.NewRightmostTrustedRange(key, clientip.TrustedIPRangeFunc(func() ([]net.IPNet, error) { return none, nil })))
 	s.chain = clientip.NewChain(s.rtr[0], s.rtc[2], s.lnp[0][1])
 	return s
 }
@@ -263,6 +269,7 @@ func replayIPVec(r *Run, v ipVec, rng *rand.Rand, setups map[string]*ipSetup, ev
 		check("rightmost-non-private(private-net only)", s.rnp[1], v.Rnp[1])
 		check("rightmost-trusted-range(custom)", s.rtr[0], v.Rtr[0])
 		check("rightmost-trusted-range(custom+default)", s.rtr[1], v.Rtr[1])
+		check("rightmost-trusted-range(no range)", s.rtr[2], v.Rtr[2])
 		for lim := 1; lim <= 3; lim++ {
 			check(fmt.Sprintf("leftmost-non-private(%d,default)", lim), s.lnp[0][lim-1], v.Lnp[0][lim-1])
 			check(fmt.Sprintf("leftmost-non-private(%d,private-net only)", lim), s.lnp[1][lim-1], v.Lnp[1][lim-1])
